@@ -22,4 +22,6 @@ var Checks = map[string]vk.Check{
 	"C15": C15,
 	"C16": C16,
 	"C06": C06,
+	"C18": C18,
+	"C19": C19,
 }
